@@ -19,8 +19,9 @@ from . import common, pipecheck, scenes
 LABELINGS = ['shuffled', 'offset', 'float', 'string', 'concat_repeats', 'all_equal', 'random_repeats', 'negative', 'sorted_repeats',
              'timestamp', 'named_like_column', 'named_like_column']
 LAYOUTS = ['col_perm', 'extra_cols', 'dtype_obj_ceilo', 'dtype_int_dt', 'dtype_int_height', 'dtype_float_type',
-           'dtype_int8_type', 'dtype_object_all', 'objint_ceilo', 'objint_ceilo', 'dup_extra_cols', 'many_extra_cols']
-RENAMINGS = ['reverse_order', 'ten_nine', 'substring', 'whitespace', 'long', 'unicode', 'empty_ish', 'swap', 'concat_collision', 'concat_collision', 'escapes', 'escapes']
+           'dtype_int8_type', 'dtype_object_all', 'objint_ceilo', 'objint_ceilo', 'dup_extra_cols', 'many_extra_cols', 'rich_extra_cols', 'rich_extra_cols']
+RENAMINGS = ['reverse_order', 'ten_nine', 'substring', 'whitespace', 'long', 'unicode', 'empty_ish', 'swap', 'concat_collision', 'concat_collision', 'escapes', 'escapes',
+             'padded', 'padded']
 
 
 def observe(obs):
@@ -98,6 +99,16 @@ def relayout(df, how, rng):
         for lab in rng.sample([0, 1, 'station', ('a', 1), 2.5, 'Quality'], rng.choice([2, 3])):
             if lab not in out.columns:
                 out[lab] = 1
+    elif how == 'rich_extra_cols' and 'profile' not in out.columns:
+        # a superfluous column whose cells are objects of any kind: the raw profile behind every hit (array, list), a dict
+        # of flags, a set, missing values, time stamps - nothing the package has any business looking into
+        kind = rng.choice(['list', 'ndarray', 'dict', 'set', 'mixed', 'none', 'timestamp'])
+        def cell(i):
+            k_ = kind if kind != 'mixed' else ['list', 'dict', 'none', 'float'][i % 4]
+            return {'list': [i, i + 1], 'ndarray': np.arange(3) + i, 'dict': {'qc': i}, 'set': {i}, 'none': None,
+                    'timestamp': pd.Timestamp('2024-01-01') + pd.Timedelta(seconds=i), 'float': float(i)}[k_]
+        col = pd.Series([cell(i) for i in range(len(out))], index=out.index, dtype=object)
+        out.insert(rng.randrange(len(out.columns) + 1), 'profile', col)
     elif how == 'dtype_obj_ceilo':
         out['ceilo'] = out['ceilo'].astype(object)
     elif how == 'objint_ceilo':
@@ -171,6 +182,11 @@ def rename_map(names, how, rng, rows=None):
         pool = ['LSZH\\north', 'a\\tb', 'rwy\\16', 'x"y', "it's", 'a b', 'a;b', '{c}', '%s', '$(x)', 'a`b', 'c == d', 'é\\u00e9', '@e', '#f',
                 'None', 'nan', 'True', '1e3', '0x10', '-1', ' ', '\\']
         new = rng.sample(pool, len(names)) if len(names) <= len(pool) else [f'n\\{i}' for i in range(len(names))]
+    elif how == 'padded':
+        # fixed-width exports, hand-typed ids: names that differ only by padding, by case or by the form of a number
+        pool = rng.choice([['GVA1    ', ' GVA1', 'GVA1', 'gva1', 'GVA1\t', 'Gva1 '], ['7', '07', '7.0', ' 7', '7 ', '+7'],
+                           ['A', 'a', 'A ', ' a', 'Ａ', 'a\n']])
+        new = rng.sample(pool, len(names)) if len(names) <= len(pool) else [f'p{i} ' + ' ' * i for i in range(len(names))]
     elif how == 'empty_ish':
         new = ['' if i == 0 else chr(0x200b) * i for i in range(len(names))]
     else:
